@@ -1,19 +1,29 @@
 """C09 — a failed evaluation does not corrupt the model: fault injection
 (unknown function / plugin function that raises on its k-th call) at every
 formula cell of generated workbooks, followed by retry / unrelated reads /
-repair histories, in plain and iterative mode."""
+repair histories, in plain and iterative mode (the property's oracle), and the
+correspondence of the failing-formula machine of coq/Model/Fail.v with
+ExcelCompiler: same workbooks, same faults, same histories, compared per
+operation on raised-or-returned, the pycel error class, the value and the
+snapshot of every cell of the cell map (plain mode; iterative mode is
+oracle-only here, its model is C06's)."""
 import os
 import shutil
 import sys
 
 from harness import wbgen
-from harness.common import canon, ensure_impl_on_path, known_predicate
+from harness.common import canon, dec_val, enc_val, ensure_impl_on_path, known_predicate, same
 
 GEN_MODULES = ['excelutil', 'aggregates', 'stats']
 
 ASSUMPTIONS = [
     "failures are injected through the documented mechanisms only: an unknown function name, or a plugin "
     "module (plugins=) whose function raises on its k-th call; nothing inside pycel is patched",
+    "the theorems (coq/Props/C09.v) are about workbooks WITHOUT stored results (in-memory workbooks, as in "
+    "every run here), any formula semantics that may fail, any order of evaluation of the new range nodes; "
+    "the formula language of the differential run is coq/Model/GraphExpr.v plus two faults: an unknown "
+    "function (NameError after the first k precedents) and a plugin function returning 7 or raising",
+    "iterative mode, CSE arrays and cycles are not in the model: oracle-only",
 ]
 
 PLUGIN = '''"""fault-injection plugin for the C09 check"""
@@ -24,6 +34,19 @@ def boom(*args):
     CALLS["n"] += 1
     if CALLS["fail_from"] <= CALLS["n"] <= CALLS["fail_until"]:
         raise RuntimeError("injected failure #%d" % CALLS["n"])
+    return 7
+
+
+# ---- correspondence leg: one fault per cell, identified by the first argument
+FAILING = set()
+IDCALLS = {}
+FAIL_FROM = {}
+
+
+def boomid(ident, *args):
+    IDCALLS[ident] = IDCALLS.get(ident, 0) + 1
+    if ident in FAILING or IDCALLS[ident] >= FAIL_FROM.get(ident, 10 ** 9):
+        raise RuntimeError("injected failure of cell %s, call #%d" % (ident, IDCALLS[ident]))
     return 7
 '''
 
@@ -44,6 +67,16 @@ def _wip_stuck(case):
 @known_predicate('C09-repair-undone-by-upstream-write')
 def _repair_undone(case):
     return case.get('phase') == 'repair-then-upstream-write'
+
+
+@known_predicate('C09-stored-partial-retry-returns-stored')
+def _stored_partial_retry(case):
+    # INERT (no case of this check has this variant; not in known_findings.json): an .xlsx with PARTIALLY
+    # stored results — the failing cell A2 '=BOOM(A1)' has no cached value, its dependant A3 '=SUM(A1:A2)'
+    # has one: the first evaluate(A3) raises while the graph is built, the retry returns the stored value,
+    # and set_value(A1, …) no longer resets A3 (the range node A1:A2 stays None). Model witness:
+    # coq/Refuted/C09_stored_results.v. Same trigger as the C01 finding C01-stored-partial.
+    return case.get('variant') == 'stored-partial-failing-build'
 
 
 def descendants(wb, a):
@@ -217,5 +250,216 @@ def run(ctx):
             pass
         except Exception as exc:      # noqa: BLE001
             ctx.violation(case, f"bare internal exception {type(exc).__name__}")
+    correspondence(ctx, ExcelCompiler, plugin)
     sys.path.remove(ctx.work)
     shutil.rmtree(ctx.work, ignore_errors=True)
+
+
+# ------------------------------------------------------------------ correspondence with coq/Model/Fail.v
+def trim(v):
+    """evaluate() trims the dimensions of a range result; the model returns the raw tuple."""
+    if isinstance(v, tuple) and v and isinstance(v[0], tuple):
+        if len(v[0]) == 1:
+            v = tuple(r[0] for r in v)
+        if len(v) == 1:
+            v = v[0]
+    return v
+
+
+def canon_model(v):
+    if isinstance(v, list):
+        return [canon_model(x) for x in v]
+    if isinstance(v, tuple) and not (len(v) == 2 and v[0] == 'float'):
+        return tuple(canon_model(x) for x in v)
+    return v
+
+
+STATUS = {0: 'ok', 1: 'UnknownFunction', 2: 'FormulaEvalError'}
+
+
+def extend(wb, rng):
+    """Append a cell that reads two or three ranges (so that one build creates several range nodes and the
+    order in which _process_gen_graph evaluates them shows), then up to two dependants of it.
+    Returns the node indices that must become fault cells (their text is a placeholder)."""
+    rows = list(range(1, len(wb.rows) + 1))
+    if len(rows) < 3 or rng.random() < 0.35:
+        return []
+    deps = []
+    if rng.random() < 0.4:
+        deps.append(wb.rows[rng.choice(rows) - 1])
+    for _ in range(rng.choice([2, 2, 3])):
+        r1 = rng.choice(rows[:-1])
+        ri = wb.get_range(r1, rng.randrange(r1 + 1, len(rows) + 1))
+        if ri not in deps:
+            deps.append(ri)
+    f = wb.add_formula('=placeholder', deps, [2, [0, 0]])
+    row = wb.nodes[f]['row']
+    for _ in range(rng.randrange(0, 3)):
+        if rng.random() < 0.5:
+            wb.add_formula(f'=A{row}+1', [f], [3, 0, [0, 0], [1, 1]])
+        else:
+            r1 = rng.randrange(1, row)
+            ri = wb.get_range(r1, len(wb.rows))
+            (name, w) = rng.choice(wbgen.AGGS)
+            wb.add_formula(f'={name}(A{r1}:A{len(wb.rows)})', [ri], [5, w, [0, 0]])
+    return [f]
+
+
+def inject(wb, rng, forced=()):
+    """Replace 1-3 formula cells by failing formulas that keep the precedents.
+    Returns {node index: fault wire form}."""
+    faults = {}
+    formulas = [i for i in wb.formulas() if i not in forced]
+    chosen = list(forced) + rng.sample(formulas, min(len(formulas), rng.choice([0, 1, 1, 2] if forced else [1, 1, 2, 3])))
+    for fcell in chosen:
+        node = wb.nodes[fcell]
+        refs = [f'A{wb.nodes[d]["row"]}' if wb.nodes[d]['kind'] != 'range' else wb.nodes[d]['addr'].split('!')[1]
+                for d in node['deps']]
+        kind = rng.choice(['unknown', 'unknown', 'unknown-late', 'plugin', 'plugin', 'plugin'])
+        if fcell in forced and kind == 'unknown':
+            kind = 'plugin'
+        if kind == 'unknown-late' and not (node['deps'] and wb.nodes[node['deps'][0]]['kind'] != 'range'):
+            kind = 'unknown' if fcell not in forced else 'plugin'
+        if kind == 'unknown':
+            # the NameError is raised when the name is looked up: no precedent is read
+            node['text'] = f'=NOSUCHFUNC({",".join(refs) or "1"})'
+            faults[fcell] = [1, 0]
+        elif kind == 'unknown-late':
+            # the left operand is evaluated first, then the name lookup fails
+            node['text'] = f'={refs[0]}+NOSUCHFUNC({",".join(refs[1:]) or "1"})'
+            faults[fcell] = [1, 1]
+        else:
+            node['text'] = f'=BOOMID({fcell}{"".join("," + r for r in refs)})'
+            faults[fcell] = [2]
+    return faults
+
+
+def correspondence(ctx, ExcelCompiler, plugin):
+    from pycel.excelutil import PyCelException
+    rng = ctx.rng
+    ctx.extra['rule'] += (
+        "; correspondence: C01-generator workbooks of 5-10 cells, often extended by a cell that reads two or three ranges and by dependants of it, with 1-3 formula cells replaced by an unknown "
+        "function (whole formula, or right operand of +) or by a plugin function identified by its cell; histories "
+        "of 8-14 operations chosen while the implementation runs: evaluate any node (cells and ranges, built or "
+        "not), set_value on a built input, set_value of a constant on a built failing cell (repair), switch a "
+        "plugin cell between raising and returning, or arm it to raise from its k-th call; distinct = distinct "
+        "(workbook, faults, history)")
+    nwb = ctx.n(1200, 12000)
+    batch = []
+    stats = ctx.extra.setdefault('correspondence', dict(histories=0, operations=0, failed_evaluations=0,
+                                                        histories_with_a_failure=0))
+    for k in range(nwb):
+        wb = wbgen.gen_workbook(rng, ncells=rng.randrange(5, 11), pool=wbgen.CLEAN_POOL + [0, 1])
+        if not wb.formulas():
+            continue
+        faults = inject(wb, rng, extend(wb, rng))
+        plugins = [i for i, f in faults.items() if f == [2]]
+        plugin.FAILING.clear()
+        plugin.IDCALLS.clear()
+        plugin.FAIL_FROM.clear()
+        for i in plugins:
+            r = rng.random()
+            if r < 0.5:
+                plugin.FAILING.add(i)
+            elif r < 0.8:
+                plugin.FAIL_FROM[i] = rng.choice([1, 2, 2, 3])
+        flags = {i: False for i in plugins}        # what the model has been told
+        ops, impl_trace, hist = [], [], []
+
+        def sync():
+            for i in plugins:
+                now = i in plugin.FAILING or plugin.IDCALLS.get(i, 0) + 1 >= plugin.FAIL_FROM.get(i, 10 ** 9)
+                if now != flags[i]:
+                    flags[i] = now
+                    ops.append([3, i, 1 if now else 0])
+                    impl_trace.append(None)
+        sync()
+        comp = ExcelCompiler(excel=wb.to_openpyxl(), plugins=('verif_c09_plugin',))
+        inputs = {i: wb.nodes[i]['value'] for i in wb.inputs()}
+        nfail = 0
+        for step in range(rng.randrange(8, 15)):
+            built_inputs = [i for i in wb.inputs() if wb.nodes[i]['addr'] in comp.cell_map]
+            built_faults = [i for i in faults if wb.nodes[i]['addr'] in comp.cell_map]
+            r = rng.random()
+            if plugins and r < 0.12:
+                i = rng.choice(plugins)
+                plugin.FAIL_FROM.pop(i, None)
+                if i in plugin.FAILING:
+                    plugin.FAILING.discard(i)
+                elif rng.random() < 0.5:
+                    plugin.FAILING.add(i)
+                else:
+                    plugin.FAIL_FROM[i] = plugin.IDCALLS.get(i, 0) + rng.choice([1, 2])
+                hist.append(['plugin', wb.nodes[i]['addr'], sorted(plugin.FAILING), dict(plugin.FAIL_FROM)])
+                sync()
+                continue
+            if (built_inputs and r < 0.40) or (built_faults and r < 0.48):
+                if built_faults and (r >= 0.40 or not built_inputs):
+                    a, v = rng.choice(built_faults), rng.choice([5, 5, 'fixed', 0])
+                else:
+                    a = rng.choice(built_inputs)
+                    v = rng.choice([x for x in wbgen.CLEAN_POOL if x != inputs[a] or type(x) is not type(inputs[a])])
+                    inputs[a] = v
+                try:
+                    comp.set_value(wb.nodes[a]['addr'], v)
+                except Exception as exc:      # noqa: BLE001
+                    ctx.divergence(dict(call='fhistory', k=k, history=hist + [['set', wb.nodes[a]['addr'], v]]),
+                                   f'set_value raises {type(exc).__name__}', 'returns',
+                                   'Model/Graph.v set_value = ExcelCompiler.set_value')
+                    break
+                ops.append([1, a, enc_val(v)])
+                hist.append(['set', wb.nodes[a]['addr'], v])
+                impl_trace.append(('ok', None, wbgen.snapshot(comp, wb)))
+            else:
+                n = rng.randrange(len(wb.nodes))
+                addr = wb.nodes[n]['addr']
+                try:
+                    res = ('ok', canon(comp.evaluate(addr)))
+                except PyCelException as exc:
+                    res = (type(exc).__name__, None)
+                    nfail += 1
+                except Exception as exc:      # noqa: BLE001
+                    res = ('bare ' + type(exc).__name__, None)
+                ops.append([0, n])
+                hist.append(['eval', addr])
+                impl_trace.append((res[0], res[1], wbgen.snapshot(comp, wb)))
+            sync()
+        desc = [(x['addr'], x.get('value'), x.get('text')) for x in wb.nodes]
+        case = dict(call='fhistory', k=k, workbook=desc, history=hist)
+        ctx.count(('corr', k), kind='correspondence:' + ('with-failure' if nfail else 'no-failure'), sample=case)
+        stats['histories'] += 1
+        stats['operations'] += len(hist)
+        stats['failed_evaluations'] += nfail
+        stats['histories_with_a_failure'] += 1 if nfail else 0
+        nodes = [nd + [faults.get(i, [0])] for i, nd in enumerate(wb.wire())]
+        batch.append((case, wb, nodes, ops, impl_trace))
+    if not ctx.model:
+        return
+    answers = ctx.model.batch([('fhistory', [nodes, ops]) for (_, _, nodes, ops, _) in batch])
+    for (case, wb, nodes, ops, impl_trace), ans in zip(batch, answers):
+        if not isinstance(ans, list) or len(ans) != len(ops) or (ans and not isinstance(ans[0], list)):
+            ctx.divergence(case, 'n/a', ans, 'Model/Fail.v fhistory entry rejected the input')
+            continue
+        for j, (it, m) in enumerate(zip(impl_trace, ans)):
+            if it is None:
+                continue
+            istatus, iv, isnap = it
+            mstatus = STATUS.get(m[0], m[0])
+            if mstatus != istatus:
+                ctx.divergence(dict(case, step=j), istatus, mstatus,
+                               'Model/Fail.v step_f raises (and which pycel error) = ExcelCompiler')
+                break
+            if ops[j][0] == 0 and istatus == 'ok':
+                mv = trim(canon_model(dec_val(m[1])))
+                if not same(mv, iv):
+                    ctx.divergence(dict(case, step=j), iv, mv, 'Model/Fail.v evaluate_f = ExcelCompiler.evaluate')
+                    break
+            msnap = {i: canon_model(dec_val(x[1])) for i, x in enumerate(m[2]) if x[0] == 1}
+            if set(msnap) != set(isnap) or any(not same(msnap[i], isnap[i]) for i in isnap):
+                diff = {i: (isnap.get(i, '<unbuilt>'), msnap.get(i, '<unbuilt>'))
+                        for i in set(isnap) | set(msnap)
+                        if i not in isnap or i not in msnap or not same(msnap[i], isnap[i])}
+                ctx.divergence(dict(case, step=j), diff, 'see impl',
+                               'Model/Fail.v cache snapshot = ExcelCompiler.cell_map values '
+                               + ('after a failed evaluation' if istatus != 'ok' else ''))
+                break
